@@ -281,6 +281,17 @@ example :
   decide +kernel
 
 open Proofs.World.C09Ex in
+/-- Non-vacuity of `C09_fresh_name_real` in the same world: one entry, and the first two candidates fit. -/
+example : dst.dirH = some 1 ∧ (world []).dirPath 1 = some [98] ∧ (world []).dir [98] = some [(cand1, 1)] ∧
+    [(cand1, 1)].length < 2 ^ 32 ∧
+    (∀ j, j ≤ [(cand1, 1)].length →
+      (Proofs.World.cand env (some [58, 50, 44]) (Proofs.World.gennameCount0 env + 1 + j)).length < NAME_MAX1) := by
+  refine ⟨rfl, by decide, by decide, by decide, ?_⟩
+  intro j hj
+  have : j = 0 ∨ j = 1 := by simp at hj; omega
+  rcases this with rfl | rfl <;> decide +kernel
+
+open Proofs.World.C09Ex in
 /-- ... and the right-hand side of `C09_genname_gives_up_iff` on (3): one retry, then `EIO`. -/
 example : Proofs.World.RetriedTo env (some [58, 50, 44]) 1 (secondFails "EIO") (world []) 0 1 ∧
     Proofs.World.GivesUpAt env (some [58, 50, 44]) 1 (secondFails "EIO") (world []) 0 1 := by
